@@ -2,6 +2,12 @@
 package c20
 
 import (
+	"github.com/sdcio/data-server/pkg/config"
+	"github.com/sdcio/data-server/pkg/datastore/target"
+	"github.com/sdcio/data-server/pkg/datastore"
+	"github.com/openconfig/gnmi/proto/gnmi"
+	"sync/atomic"
+	"sync"
 	"context"
 	"encoding/json"
 	"fmt"
@@ -328,7 +334,7 @@ func genXML(t *rapid.T, label string) string {
 }
 
 func gen(t *rapid.T) *Case {
-	c := &Case{Target: rapid.SampledFrom([]string{"path", "set", "set", "set", "get", "notif", "notif", "xml", "import-xml", "import-json"}).Draw(t, "target")}
+	c := &Case{Target: rapid.SampledFrom([]string{"path", "set", "set", "set", "get", "notif", "notif", "devsync", "xml", "import-xml", "import-json"}).Draw(t, "target")}
 	switch c.Target {
 	case "path":
 		if rapid.Bool().Draw(t, "from-struct") {
@@ -355,7 +361,7 @@ func gen(t *rapid.T) *Case {
 		c.DataType = int32(rapid.IntRange(0, 3).Draw(t, "dt"))
 		c.DSType = int32(rapid.IntRange(0, 3).Draw(t, "dst"))
 		c.Owner = rapid.SampledFrom([]string{"", "own0", "x"}).Draw(t, "owner")
-	case "notif":
+	case "notif", "devsync":
 		n := rapid.IntRange(0, 4).Draw(t, "nupd")
 		for i := 0; i < n; i++ {
 			c.Updates = append(c.Updates, genUpd(t, "nu"))
@@ -435,6 +441,51 @@ func toTV(v TV) *sdcpb.TypedValue {
 	return nil
 }
 
+var syncHookMu sync.Mutex
+
+// toGNMITV renders the value in the gNMI typed-value kinds a device can send.
+func toGNMITV(v TV) *gnmi.TypedValue {
+	switch v.Kind {
+	case "nil":
+		return nil
+	case "none":
+		return &gnmi.TypedValue{}
+	case "string", "identityref":
+		return &gnmi.TypedValue{Value: &gnmi.TypedValue_StringVal{StringVal: v.S}}
+	case "ascii":
+		return &gnmi.TypedValue{Value: &gnmi.TypedValue_AsciiVal{AsciiVal: v.S}}
+	case "bytes":
+		return &gnmi.TypedValue{Value: &gnmi.TypedValue_BytesVal{BytesVal: []byte(v.S)}}
+	case "proto":
+		return &gnmi.TypedValue{Value: &gnmi.TypedValue_ProtoBytes{ProtoBytes: []byte(v.S)}}
+	case "any":
+		return &gnmi.TypedValue{Value: &gnmi.TypedValue_AnyVal{AnyVal: &anypb.Any{TypeUrl: "x", Value: []byte(v.S)}}}
+	case "int":
+		return &gnmi.TypedValue{Value: &gnmi.TypedValue_IntVal{IntVal: v.I}}
+	case "uint":
+		return &gnmi.TypedValue{Value: &gnmi.TypedValue_UintVal{UintVal: v.U}}
+	case "bool", "empty":
+		return &gnmi.TypedValue{Value: &gnmi.TypedValue_BoolVal{BoolVal: v.I != 0}}
+	case "decimal":
+		return &gnmi.TypedValue{Value: &gnmi.TypedValue_DecimalVal{DecimalVal: &gnmi.Decimal64{Digits: v.I, Precision: uint32(v.U)}}}
+	case "double":
+		return &gnmi.TypedValue{Value: &gnmi.TypedValue_DoubleVal{DoubleVal: v.F}}
+	case "float":
+		return &gnmi.TypedValue{Value: &gnmi.TypedValue_FloatVal{FloatVal: float32(v.F)}}
+	case "json":
+		return &gnmi.TypedValue{Value: &gnmi.TypedValue_JsonVal{JsonVal: []byte(v.S)}}
+	case "json_ietf":
+		return &gnmi.TypedValue{Value: &gnmi.TypedValue_JsonIetfVal{JsonIetfVal: []byte(v.S)}}
+	case "leaflist":
+		arr := &gnmi.ScalarArray{}
+		for _, e := range v.Elems {
+			arr.Element = append(arr.Element, toGNMITV(e))
+		}
+		return &gnmi.TypedValue{Value: &gnmi.TypedValue_LeaflistVal{LeaflistVal: arr}}
+	}
+	return nil
+}
+
 func toIntent(in Intent) *sdcpb.TransactionIntent {
 	r := &sdcpb.TransactionIntent{Intent: in.Name, Priority: in.Prio, Delete: in.Delete, Orphan: in.Orphan}
 	for _, u := range in.Updates {
@@ -452,7 +503,7 @@ func harnessErr(err error) {
 
 var prop = vlib.Prop[*Case]{
 	ID: "C20",
-	Rule: "case = one input for one of 7 in-process entry points: path strings (ParsePath, StripPathElemPrefix, CompletePathFromString, NormalizedAbsPath, ToXPath), TransactionSet requests (intent conversion + TransactionSet on a real, pre-populated datastore: any schema node x any typed-value kind incl. absent / mismatched / nested leaf-lists, JSON / JSON_IETF documents of arbitrary shape against every container, paths with dropped / foreign / misplaced keys and unknown elements, hostile names and priorities, replace intents), GetData requests, gNMI notifications (ConvertNotificationTypedValues + expansion), NETCONF XML (XML2sdcpbConfigAdapter.Transform) and XML / JSON tree import; generators are structure-aware with 'one step off valid' mutations; " +
+	Rule: "case = one input for one of 8 in-process entry points: path strings (ParsePath, StripPathElemPrefix, CompletePathFromString, NormalizedAbsPath, ToXPath), TransactionSet requests (intent conversion + TransactionSet on a real, pre-populated datastore: any schema node x any typed-value kind incl. absent / mismatched / nested leaf-lists, JSON / JSON_IETF documents of arbitrary shape against every container, paths with dropped / foreign / misplaced keys and unknown elements, hostile names and priorities, replace intents), GetData requests, gNMI notifications (ConvertNotificationTypedValues + expansion; and as gnmi.Notification through ToSchemaNotification into the real Datastore.Sync loop / storeSyncMsg), NETCONF XML (XML2sdcpbConfigAdapter.Transform) and XML / JSON tree import; generators are structure-aware with 'one step off valid' mutations; " +
 		"oracle = the call returns a value or an error: a panic (recovered, signature = first data-server frame) or a call exceeding 10 s is a violation, errors never are; " +
 		"non-trivial = the input passed the first schema lookup (reached typed logic rather than dying in path validation); distinct = distinct case JSON",
 	Gen:  gen,
@@ -601,6 +652,53 @@ func Exec(c *Case) (nontrivial bool, labels []string, fail *vlib.Failure) {
 			for _, u := range cn.GetUpdate() {
 				_, _ = conv.ExpandUpdateKeysAsLeaf(ctx, u)
 				_, _ = env.Cache.NewUpdate(u)
+			}
+		})
+		return nontrivial, lab, f
+	case "devsync":
+		// the message as a gNMI device sends it: gnmi.Notification -> ToSchemaNotification (FromGNMITypedValue for every
+		// value kind) -> the real Datastore.Sync loop and storeSyncMsg (conversion, key expansion, cache writes)
+		gn := &gnmi.Notification{Timestamp: 1}
+		for _, u := range c.Updates {
+			gn.Update = append(gn.Update, &gnmi.Update{Path: utils.ToGNMIPath(toPath(u.Path)), Val: toGNMITV(u.Val)})
+			if knownFirst(toPath(u.Path)) {
+				nontrivial = true
+			}
+			lab = append(lab, "value-"+u.Val.Kind)
+		}
+		for _, d := range c.Deletes {
+			gn.Delete = append(gn.Delete, utils.ToGNMIPath(toPath(d)))
+		}
+		f := withDeadline("DeviceMessageThroughSync", func() {
+			sctx, cancel := context.WithCancel(ctx)
+			defer cancel()
+			dev := vlib.NewDevice(nil)
+			dev.SyncFeed = make(chan *target.SyncUpdate)
+			name := env.FreshName("c20sync")
+			ds := env.NewDatastore(sctx, dev, vlib.DSOpts{Name: name, Sync: &config.Sync{Validate: len(c.Deletes)%2 == 0, Buffer: 10, WriteWorkers: 2}})
+			defer ds.Stop()
+			var done atomic.Int32
+			syncHookMu.Lock()
+			datastore.VerifSyncMsgDone = func(n string) {
+				if n == name {
+					done.Add(1)
+				}
+			}
+			syncHookMu.Unlock()
+			go ds.Sync(sctx)
+			sn := utils.ToSchemaNotification(gn)
+			for _, su := range []*target.SyncUpdate{{Start: true, Force: true}, {Update: sn}, {End: true}, {Update: sn}} {
+				select {
+				case dev.SyncFeed <- su:
+				case <-time.After(8 * time.Second):
+					return
+				}
+			}
+			for i := 0; i < 8000 && done.Load() < 2; i++ {
+				time.Sleep(time.Millisecond)
+			}
+			if done.Load() < 2 {
+				panic(fmt.Sprintf("the sync loop did not finish the device message within 8 s (%d of 2 done)", done.Load()))
 			}
 		})
 		return nontrivial, lab, f
